@@ -76,7 +76,11 @@ def r1(ctx):
         start = peel(fs["start"]).get("v") if "start" in fs else None
     early = any(x["k"] == "If" and "Equal" in render(x["c"]) and "!=" in render(x["c"]) and
                 any(y["k"] == "Ret" for y in walk_exprs(x["t"])) for x in walk_exprs(h))
-    ok = len(calls) == 1 and start == 0 and early
+    # the same as a lazy chain: (0..n).map(|i| self.cmp_at(other, i)).find(|c| *c != Equal)
+    lazy = any(c["k"] == "MCall" and c["m"] in ("find", "skip_while", "find_map") and "cmp_at" in render(c["recv"]) and c["args"] and
+               "Equal" in render(c["args"][0]) and ("!=" in render(c["args"][0]) or ".ne(" in render(c["args"][0]) or
+                                                    (c["m"] == "skip_while" and "==" in render(c["args"][0]))) for c in walk_exprs(h))
+    ok = len(calls) == 1 and start == 0 and (early or lazy)
     ctx.obligation(ok)
     ctx.covered("lexicographic key combination in Criteria::cmp", 1, distinct_keys=[CMP])
     if not ok:
@@ -230,9 +234,18 @@ def r4(ctx):
     fills = [x for x in walk_exprs(hir) if x["k"] == "Assign" and x["l"]["k"] == "Index" and "criteria" in render(x["l"]["e"])]
     ok = False
     if len(fills) == 1:
-        g = guards_of(hir, fills[0])
-        ok = render(fills[0]["l"]["i"]) == "idx" and any(t[0] == "loop" for t in g)
-        loops = [t[1] for t in g if t[0] == "loop"]
+        # the fill sits in the enumerate() iteration over the ordering fields, indexed by that iteration's counter, and the
+        # value is the text of that iteration's expression (cached or evaluated)
+        its = [it for it in find_iterations(hir) if "ordering_fields" in render(it["iter"]) and "enumerate" in render(it["iter"]) and
+               any(y is fills[0] for y in walk_exprs(it["body"]))]
+        if len(its) == 1 and len(pat_binders(its[0]["pat"])) == 2:
+            i_id, f_id = pat_binders(its[0]["pat"])
+            ms = [c["m"] for c in walk_exprs(its[0]["iter"]) if c["k"] == "MCall"]
+            blocs = Locals(its[0]["body"])
+            val = render(blocs.chase(peel(fills[0]["r"], methods=False)))
+            uses_field = any(x["k"] == "Path" and x.get("res") == f_id for x in walk_exprs(its[0]["body"]))
+            ok = peel(fills[0]["l"]["i"]).get("res") == i_id and not (set(ms) & {"filter", "skip", "take", "rev", "step_by"}) and uses_field and \
+                any(c["k"] == "MCall" and c["m"] == "get_column_expr_value" for c in walk_exprs(its[0]["body"]))
     ctx.obligation(ok)
     if not ok:
         ctx.violation("check_file/criteria", ctx.where(CHECK_FILE), "check_file must compute one criteria value per ordering field")
